@@ -67,7 +67,10 @@ STUBS = {
 # ---------------------------------------------------------------------------------------------------------------------
 IR_VARS = {
     "lan": V4T, "intro": PEER_OBJ(_address=V4T, _addresses=EXPR("lan_table(has_lan, lan)"), new_style_intro=BOOL),
-    "other": OPT(PEER_OBJ()), "PUNCT": BYTES, "intro_is_lan": BOOL,
+    # the requester as the introducer knows it (None: not yet a verified peer); its own LAN address may have been learned and may
+    # be ANY address - in particular equal to its observed address (a requester that is not behind a NAT)
+    "other_lan": V4T, "other_peer": PEER_OBJ(_addresses=EXPR("lan_table(other_has_lan, other_lan)")),
+    "other": EXPR("other_peer if other_known else None"), "PUNCT": BYTES, "intro_is_lan": BOOL,
     "self": community(endpoint=EFFECT("endpoint", send={}, is_open={"returns": EXPR("True")}),
                       network=EFFECT("network", get_verified_by_address={"returns": EXPR("other")})),
     "reqlan": V4T, "sock": V4T, "identifier": RANGE(0, 65535),
@@ -81,7 +84,9 @@ IR_STUBS = {**STUBS,
                 "returns": "intro_is_lan", "note": "whether the introduced peer's address is one of OUR interface addresses"}}
 for _ns in (False, True):
     contract(f"{COM}::Community.create_introduction_response", f"introduce+puncture[new_style={_ns}]", vars=IR_VARS,
-             instances=[{"have_intro": h, "has_lan": l} for h in (False, True) for l in ((False, True) if h else (False,))],
+             instances=[{"have_intro": h, "has_lan": l, "other_known": k, "other_has_lan": ol}
+                        for h in (False, True) for l in ((False, True) if h else (False,))
+                        for k, ol in ((False, False), (True, False), (True, True))],
              call=f"self.create_introduction_response(reqlan, sock, identifier, new_style={_ns})", raises=[], stubs=IR_STUBS,
              on_effect={
                  # the puncture request names the requester's OBSERVED address and the request's identifier ...
